@@ -25,8 +25,12 @@ def contracts():
 
     def c(target, **kw):
         kw.setdefault('serves', ('C13', 'C14'))
-        kw.setdefault('native', False)
+        # native twin: counting iterator (SRC.seq / SRC.pos), pulls[k] taken
+        # while the result is consumed, counted callbacks
+        kw.setdefault('native', None)
         x = Contract(target, **kw)
+        x.native_scope = 3
+        x.native_seq = True
         cs.append(x)
         return x
     IT = TIter(TVal)
